@@ -63,6 +63,14 @@ def _boundary_cases():
         for lat in (1, 2):
             out.append(("outage", [("net", "accept"), ("lat", lat), ("blockfirst", 1), ("open",), ("send", 1, "ok", "idem"), ("send", 2, "ok", "conn"),
                                    ("send", 3, "ok", "idem"), ("adv", lat + wait), ("blockfirst", 0), ("block", 0), ("adv", 16)]))
+    # ... and the application keeps sending while that flush is held up: an entry expires in the buffer during the block, a further
+    # command is accepted (its acceptance discards the expired entry), then the congestion clears - every command once, in order
+    for wait in (9, 12, 40):
+        for later in (1, 2):
+            for pol in ("idem", "nonidem"):
+                out.append(("outage", [("net", "accept"), ("lat", 1), ("blockfirst", 1), ("open",), ("send", 1, "ok", "idem"), ("send", 2, "ok", "conn"),
+                                       ("send", 3, "ok", pol), ("send", 4, "ok", "idem"), ("adv", 1 + wait)]
+                            + [("send", 5 + i, "ok", "idem") for i in range(later)] + [("turn", 2), ("blockfirst", 0), ("block", 0), ("adv", 16)]))
     # peer reset while a drain is blocked, entry with / without retries
     for pol in ("idem", "nonidem"):
         out.append(("faults", [("net", "accept"), ("open",), ("adv", 8), ("block", 1), ("send", 1, "ok", pol), ("turn", 2),
